@@ -7,7 +7,7 @@
 //! event trace through the transition systems of `P2/Model/ProcStream.lean` and predicts the yielded
 //! sequence.
 //!
-//! Request: `cur <kind> <n> a=<gaps> p1=.. n1=.. [p2=.. n2=.. [p3=.. n3=..]] | <event>*`
+//! Request: `cur <kind> <n> s=<0 iter|1 channel> a=<gaps> p1=.. n1=.. [p2=.. n2=.. [p3=.. n3=..]] | <event>*`
 //!   kind: `single` | `bag` (LIFO processor) | `hold` (item x is withheld until x+1 was processed)
 //!       | `chain2` | `chain3` (separate `.layer()`s)
 //!       | `comp2` | `comp3` (`PipelineBuilder::new().layer(..).layer(..)[.layer(..)].build()` in one layer)
@@ -33,6 +33,9 @@ struct Script {
     kind: String,
     n: usize,
     gaps: Vec<u64>,
+    /// input source: false = `stream::iter(..).then(sleep gap)`, true = unbounded channel fed by a task
+    /// (items with gap 0 are queued in the channel before the stream is polled again)
+    chan: bool,
     pd: Vec<Vec<u64>>, // per stage, per item
     nd: Vec<Vec<u64>>,
 }
@@ -142,14 +145,43 @@ async fn run_script(sc: &Script) -> (Vec<u32>, Vec<String>) {
     let log: Log = Rc::default();
     let items: Vec<(u32, u64)> = (0..sc.n as u32).map(|i| (i, sc.gaps[i as usize])).collect();
     let l0 = log.clone();
-    let input = futures::stream::iter(items)
-        .then(|(x, gap)| async move {
-            if gap > 0 {
-                tokio::time::sleep(Duration::from_millis(gap)).await;
+    let input: std::pin::Pin<Box<dyn futures::Stream<Item = u32>>> = if sc.chan {
+        let (tx, rx) = futures::channel::mpsc::unbounded::<u32>();
+        // everything that is due at t = 0 is in the channel before the stream is polled for the first time
+        let mut rest = vec![];
+        let mut leading = true;
+        for (x, gap) in items {
+            if leading && gap == 0 {
+                let _ = tx.unbounded_send(x);
+            } else {
+                leading = false;
+                rest.push((x, gap));
             }
-            x
-        })
-        .inspect(move |x| l0.borrow_mut().push(format!("1u{x}")));
+        }
+        tokio::task::spawn_local(async move {
+            for (x, gap) in rest {
+                if gap > 0 {
+                    tokio::time::sleep(Duration::from_millis(gap)).await;
+                }
+                let _ = tx.unbounded_send(x);
+            }
+            // keep the sender alive: processors never terminate
+            tokio::time::sleep(Duration::from_millis(10_000_000)).await;
+            drop(tx);
+        });
+        Box::pin(rx.inspect(move |x| l0.borrow_mut().push(format!("1u{x}"))))
+    } else {
+        Box::pin(
+            futures::stream::iter(items)
+                .then(|(x, gap)| async move {
+                    if gap > 0 {
+                        tokio::time::sleep(Duration::from_millis(gap)).await;
+                    }
+                    x
+                })
+                .inspect(move |x| l0.borrow_mut().push(format!("1u{x}"))),
+        )
+    };
     let mut out: Vec<u32> = vec![];
     // one `collect` for every shape (the stream types differ)
     macro_rules! collect {
@@ -241,7 +273,7 @@ fn fmt_list(v: &[u64]) -> String {
 }
 
 fn script_tokens(sc: &Script) -> String {
-    let mut s = format!("cur {} {} a={}", sc.kind, sc.n, fmt_list(&sc.gaps));
+    let mut s = format!("cur {} {} s={} a={}", sc.kind, sc.n, if sc.chan { 1 } else { 0 }, fmt_list(&sc.gaps));
     for (i, (p, n)) in sc.pd.iter().zip(&sc.nd).enumerate() {
         s.push_str(&format!(" p{}={} n{}={}", i + 1, fmt_list(p), i + 1, fmt_list(n)));
     }
@@ -255,19 +287,22 @@ fn parse_script(req: &str) -> Script {
     let n: usize = it.next().unwrap().parse().unwrap();
     let parse = |s: &str| -> Vec<u64> { if s.is_empty() { vec![] } else { s.split(',').map(|x| x.parse().unwrap()).collect() } };
     let mut gaps = vec![];
+    let mut chan = false;
     let mut pd = vec![];
     let mut nd = vec![];
     for t in it {
         let (k, v) = t.split_once('=').unwrap();
         if k == "a" {
             gaps = parse(v);
+        } else if k == "s" {
+            chan = v == "1";
         } else if k.starts_with('p') {
             pd.push(parse(v));
         } else {
             nd.push(parse(v));
         }
     }
-    Script { kind, n, gaps, pd, nd }
+    Script { kind, n, gaps, chan, pd, nd }
 }
 
 fn stages_of(kind: &str) -> usize {
@@ -295,7 +330,20 @@ fn emit(rt: &tokio::runtime::Runtime, out: &mut Out, sc: &Script, tagk: &str) {
     let c = out.case(&req, &ans, nt);
     out.count(&format!("kind={}", sc.kind));
     out.count(&format!("tag={tagk}"));
-    out.count(&format!("items={}", match sc.n { 0..=3 => "0-3", 4..=10 => "4-10", 11..=25 => "11-25", _ => ">25" }));
+    out.count(&format!("items={}", match sc.n { 0..=3 => "0-3", 4..=10 => "4-10", 11..=16 => "11-16", 17..=32 => "17-32", 33..=48 => "33-48", _ => ">48" }));
+    out.count(if sc.chan { "source=channel" } else { "source=iter" });
+    // longest run of inputs that became ready together (consecutive pulls without any other event)
+    let mut run = 0usize;
+    let mut longest = 0usize;
+    for e in &events {
+        if e.starts_with("1u") {
+            run += 1;
+            longest = longest.max(run);
+        } else {
+            run = 0;
+        }
+    }
+    out.count(&format!("longest-input-burst={}", match longest { 0..=1 => "1", 2..=8 => "2-8", 9..=16 => "9-16", 17..=32 => "17-32", _ => ">32" }));
     out.count_n("handovers-cancelled", lost.len() as u64);
     out.count_n("events", events.len() as u64);
     // Oracle: every input yielded exactly once; in input order for the FIFO kinds.
@@ -333,7 +381,9 @@ fn random_script(rng: &mut Rng, kind: &str, n: usize) -> Script {
     let pick = |rng: &mut Rng, zero_bias: bool| -> u64 {
         if zero_bias && rng.chance(1, 2) { 0 } else { *rng.pick(&[0u64, 1, 2, 5]) }
     };
-    let gaps = (0..n).map(|_| pick(rng, false)).collect();
+    // a third of the scripts deliver the inputs in bursts (long runs of gap 0)
+    let bursty = rng.chance(1, 3);
+    let gaps = (0..n).map(|_| if bursty && rng.chance(9, 10) { 0 } else { pick(rng, false) }).collect();
     let mut pd = vec![];
     let mut nd = vec![];
     for s in 0..st {
@@ -342,7 +392,7 @@ fn random_script(rng: &mut Rng, kind: &str, n: usize) -> Script {
         pd.push((0..n).map(|_| if atomic { 0 } else { pick(rng, s == 0) }).collect());
         nd.push((0..n).map(|_| pick(rng, true)).collect());
     }
-    Script { kind: kind.into(), n, gaps, pd, nd }
+    Script { kind: kind.into(), n, gaps, chan: rng.chance(1, 3), pd, nd }
 }
 
 fn main() {
@@ -365,16 +415,43 @@ fn main() {
     emit(
         &rt,
         &mut out,
-        &Script { kind: "comp2".into(), n: 2, gaps: vec![0, 3], pd: vec![vec![0, 0], vec![5, 5]], nd: vec![vec![0, 0], vec![0, 0]] },
+        &Script { kind: "comp2".into(), n: 2, gaps: vec![0, 3], chan: false, pd: vec![vec![0, 0], vec![5, 5]], nd: vec![vec![0, 0], vec![0, 0]] },
         "witness",
     );
     // the same script with an atomic hand-over must lose nothing
     emit(
         &rt,
         &mut out,
-        &Script { kind: "comp2".into(), n: 2, gaps: vec![0, 3], pd: vec![vec![0, 0], vec![0, 0]], nd: vec![vec![0, 0], vec![5, 5]] },
+        &Script { kind: "comp2".into(), n: 2, gaps: vec![0, 3], chan: false, pd: vec![vec![0, 0], vec![0, 0]], nd: vec![vec![0, 0], vec![5, 5]] },
         "witness-atomic",
     );
+    // Bursts: many inputs ready within one poll of the stream (all at t = 0, or arriving together between two
+    // polls), from `stream::iter` and from a pre-filled channel, through every shape.
+    let burst_sizes: Vec<usize> = match args.tier {
+        Tier::Quick => vec![16, 17, 18, 33, 34, 35, 64],
+        _ => (15..=70).collect(),
+    };
+    for &n in &burst_sizes {
+        for kind in ["single", "bag", "hold", "chain2", "chain3", "comp2"] {
+            for chan in [false, true] {
+                // (a) everything ready at once, processors without delays
+                let st = stages_of(kind);
+                let zero = Script { kind: kind.into(), n, gaps: vec![0; n], chan, pd: vec![vec![0; n]; st], nd: vec![vec![0; n]; st] };
+                emit(&rt, &mut out, &zero, "burst-t0");
+                // (b) everything ready at once, random delays
+                let mut sc = random_script(&mut rng, kind, n);
+                sc.gaps = vec![0; n];
+                sc.chan = chan;
+                emit(&rt, &mut out, &sc, "burst-t0-delays");
+                // (c) two bursts: the second arrives while the first is being worked on
+                let mut sc = random_script(&mut rng, kind, n);
+                let cut = rng.range(1, n as u64 - 1) as usize;
+                sc.gaps = (0..n).map(|i| if i == cut { *rng.pick(&[1u64, 2, 5, 50]) } else { 0 }).collect();
+                sc.chan = chan;
+                emit(&rt, &mut out, &sc, "burst-between-polls");
+            }
+        }
+    }
     let n_scripts = match args.tier {
         Tier::Quick => 900,
         Tier::Thorough => 60_000,
@@ -383,7 +460,7 @@ fn main() {
     let kinds = ["single", "bag", "hold", "chain2", "chain3", "comp2", "comp2", "comp3"];
     for i in 0..n_scripts {
         let kind = kinds[i % kinds.len()];
-        let n = if rng.chance(1, 10) { rng.range(20, 40) } else { rng.range(1, 12) } as usize;
+        let n = if rng.chance(1, 10) { rng.range(17, 70) } else { rng.range(1, 12) } as usize;
         let sc = random_script(&mut rng, kind, n);
         emit(&rt, &mut out, &sc, "random");
     }
